@@ -23,6 +23,7 @@ def run(F, R, ctx):
     int_tag_rule(F, R)
     jitmodel.deopt_rule(F, R, "C02.x")
     jitmodel.helper_panic_rule(F, R, "C07.j")
+    jitmodel.name_table_gate_rule(F, R, "C02.n")
 
 
 def _run(F, R, ctx):
